@@ -29,7 +29,7 @@ def run(ctx):
               "electron_radius": dec.to_dec(c["electron_radius"]), "avogadro": dec.to_dec(c["avogadro_number"]),
               "consts": {"plancks_constant": dec.to_dec(c["plancks_constant"]), "speed_of_light": dec.to_dec(c["speed_of_light"])}}
     with_table = [z for z in sorted(eb) if z >= 1 and read_nff(eb[z][1]) is not None]
-    chosen = with_table if not quick else sorted(rng.sample(with_table, 12))
+    chosen = with_table if not quick else sorted(set(rng.sample(with_table, 12)) | {14})       # Si: the one table with unsorted rows
     without = [z for z in sorted(eb) if z >= 1 and z not in with_table]
     # ---- interpolation events per element
     items, rows_of = [], {}
@@ -54,6 +54,9 @@ def run(ctx):
         for i in range(n - 1):                                  # intervals that join a flagged (f1 = -9999) row to a tabulated one
             if (rows[i][1] == "-9999.") != (rows[i + 1][1] == "-9999.") and Es[i + 1] > Es[i]:
                 pts += [Es[i] + (Es[i + 1] - Es[i]) * x for x in (0.5, 0.03, 0.97, rng.random())]
+        for i in range(n - 1):                                  # rows out of order (a defect of the data file)
+            if Es[i + 1] < Es[i]:
+                pts += [Es[i], Es[i + 1] * (1 + 1e-9), (Es[i] + Es[i + 1]) / 2]
         pts += [Es[0] * (1 - 1e-9), Es[0] * 0.5, Es[0], Es[-1], Es[-1] * (1 + 1e-9), Es[-1] * 2, Es[1] * (1 - 1e-12)]
         for j, E in enumerate(pts):
             add({"kind": "sf", "z": z, "E": [E], "wavelength": (j % 5 == 0), "via": rng.choice(["el", "el", "ion", "iso"])})
@@ -99,7 +102,11 @@ def run(ctx):
             addo({"kind": "rel", "rel": "vector", "compound": ["dict", comp], "density": rho, "E": E, "vector": Es, "index": rng.randrange(4)})
         else:
             iso_l = rawtables.isotope_list()
-            variant = [[z, (rng.choice(iso_l[z]) if iso_l.get(z) else 0), q, n] for z, a, q, n in comp]
+            vm = {}
+            for z, a, q, n in comp:
+                k3 = (z, (rng.choice(iso_l[z]) if iso_l.get(z) else 0), q)
+                vm[k3] = vm.get(k3, 0) + n
+            variant = [[z, a, q, n] for (z, a, q), n in vm.items()]
             merged = {}
             for z, a, q, n in comp:          # the same element twice: one entry of natural abundance with the summed count
                 merged[(z, q)] = merged.get((z, q), 0) + n
@@ -164,8 +171,23 @@ def run(ctx):
     ctx.count("compound / relation / reflectivity / f0 events", len(oth))
     for e in oth + [x for v in sf_by_z.values() for x in v]:
         ctx.distinct(e["id"])
+    def region(i):
+        """rows whose energy is lower than the row before (a defect of the data file): interpolation is not defined there"""
+        if i.startswith("nff:"):
+            _, z, r = i.split(":")
+            return "unsorted-rows:%s:%s" % (z, r)
+        t = task.get(i.split("#")[0]) or {}
+        if t.get("kind") == "sf" and t["z"] in rows_of:
+            rows = rows_of[t["z"]]
+            for r in range(1, len(rows)):
+                lo, hi = float(rows[r][0]) / 1000.0, float(rows[r - 1][0]) / 1000.0
+                idx = int(i.split("#")[1]) if "#" in i else 0
+                Es_ = [t["E"][idx]] if idx < len(t["E"]) else t["E"]
+                if lo < hi and all(lo * (1 - 1e-6) <= E <= hi * (1 + 1e-6) for E in Es_):
+                    return "unsorted-rows:%d:%d" % (t["z"], r)
+        return "general"
     for i, x in sorted(rejected.items()):
-        ctx.violation({"kind": "xray", "clause": x["clause"], "id": i, "task": task.get(i.split("#")[0])})
+        ctx.violation({"kind": "xray", "clause": x["clause"], "id": i, "task": task.get(i.split("#")[0]), "region": region(i)})
     for t in items[:2] + others[:3]:
         ctx.sample(t)
     ctx.cov["elements_with_tables_checked"] = len(chosen)
